@@ -11,10 +11,13 @@ package message
 //@ type Message
 //@   self m
 //@   monitor ackMutex guards ackSentType, ack(write), noAck(write)
+//@   ownschan ack, noAck
 //@   invariant m.ackSentType == noAckSent || m.ackSentType == ack || m.ackSentType == nack [range]
 //@   invariant m.ackSentType == noAckSent ==> open(m.ack) && open(m.noAck) && (m.ack != nil && m.noAck != nil ==> m.ack != m.noAck) [unsettled]
 //@   invariant m.ackSentType == ack ==> closed(m.ack) && open(m.noAck) [acked]
 //@   invariant m.ackSentType == nack ==> closed(m.noAck) && open(m.ack) [nacked]
+//@   strong-invariant (closed(m.ack) ==> m.ackSentType == ack) && (closed(m.noAck) ==> m.ackSentType == nack) [a-closed-channel-tells-the-settlement]
+//@   rely (old(m.ack) != nil ==> m.ack == old(m.ack)) && (old(m.noAck) != nil ==> m.noAck == old(m.noAck)) [channels-once-set-are-never-replaced]
 //@   rely old(m.ackSentType) != noAckSent ==> m.ackSentType == old(m.ackSentType) && m.ack == old(m.ack) && m.noAck == old(m.noAck) [settled-stays]
 
 //@ func init
